@@ -118,10 +118,44 @@ def _mutate(draw, text):
     return text[:MAXLEN]
 
 
+_EXPR_ATOMS = ['0', '1', '7', '08', '010', '0x1F', '0X', '0x', '0b101', '0b2', '1u', '2UL', '3ll', '4lu', '1.5', '1e3', '0x1p3',
+               '1f', '99999999999999999999', '-1', 'TEN', 'AA', 'BB', 'undefined_name', 'sizeof(int)', '(int)1', '1 ? 2 : 3',
+               '!1', '~1', '"s"', "'a'", "'ab'", "''", "'\\''", "'\\\\'", '__dotdotdotarray__', '...', '']
+_EXPR_OPS = ['+', '-', '*', '/', '%', '<<', '>>', '&', '|', '^', '&&', '||', '<', '==', ',']
+
+
+def _expr_strings():
+    """strings that sit where cdef()/typeof() expect an integer constant expression"""
+    esc = st.characters(min_codepoint=0x20, max_codepoint=0x7e).map(lambda c: "'\\%s'" % c)
+    atom = st.one_of(st.sampled_from(_EXPR_ATOMS), st.sampled_from(_EXPR_ATOMS), esc,
+                     st.integers(-2**70, 2**70).map(str), st.integers(0, 2**64).map(hex))
+
+    @st.composite
+    def expr(draw, depth=0):
+        c = draw(st.integers(0, 9))
+        if depth >= 3 or c <= 3:
+            return draw(atom)
+        if c <= 7:
+            return '%s %s %s' % (draw(expr(depth + 1)), draw(st.sampled_from(_EXPR_OPS)), draw(expr(depth + 1)))
+        if c == 8:
+            return '(%s)' % draw(expr(depth + 1))
+        return '%s%s' % (draw(st.sampled_from(['-', '+', '~', '!', '- -', '&', '*'])), draw(expr(depth + 1)))
+    return expr()
+
+
+_EXPR_CONTEXTS = [('cdef', 'int a[%s];'), ('cdef', 'enum e { A = %s, B };'), ('cdef', 'struct s { int x : %s; };'),
+                  ('cdef', 'typedef char t[%s][2];'), ('cdef', 'void f(int a[%s]);'), ('typeof', 'int[%s]'),
+                  ('typeof', 'char(*)[%s]'), ('typeof', 'int(*)(long[%s])'), ('cdef', '#define X %s'),
+                  ('cdef', 'static const int K = %s;'), ('cdef', 'enum e { A = %s };\nint b[A];')]
+
+
 def strategy(ctx):
     @st.composite
     def case(draw):
         which = draw(st.integers(0, 9))
+        if which == 6 or (which == 2 and draw(st.booleans())):
+            entry, fmt = draw(st.sampled_from(_EXPR_CONTEXTS))
+            return {'entry': entry, 'text': (fmt % draw(_expr_strings()))[:MAXLEN], 'mutated_from_valid': True}
         if which <= 3:
             spec = draw(cdefgen.specs(max_decls=5))
             text = cdefgen.cdef_text(spec)
